@@ -1,8 +1,8 @@
-import Infretis.Lemmas.RepexC04Once
+import Infretis.Lemmas.RepexC04Restart
 /-!
 # C04 — fractional weights are conserved and accounted for exactly once
 
-Property theorems only (helper lemmas: `Infretis/Lemmas/RepexC04{Rec,Rows,Treat,Check,Frame,Hist,Once}.lean`;
+Property theorems only (helper lemmas: `Infretis/Lemmas/RepexC04{Rec,Rows,Treat,Check,Frame,Hist,Once,Restart}.lean`;
 the history theorems use C03's scheduler invariant `Inv` from `RepexC03{Core,Treat,Sys,Init,Load}.lean`).
 Model: `Infretis/Model/Repex.lean` (`recordFrac` = the "record weights" loop of `treat_output`,
 `writeRows` = `write_to_pathens`, `treatOutput`, the scheduler events `sysStep`/`run`, the restart
@@ -316,7 +316,21 @@ theorem row_written_when_replaced (y0 y y' : Sys) (evs : List Ev) (ev : Ev) (h0 
   simp only [writtenAt, hjob, written]
   rw [r.jobsOld job (List.mem_of_getElem? hjob)]
 
-theorem ex_rowInit : RowInit exSys := rowInit_of_liveOk ex_fracInit (by decide +kernel)
+/-- **`RowInit` (hence `FracInit`) is what a fresh start produces**: `REPEX_state.__init__` followed
+    by `load_paths` on `n − 1` initial paths with pairwise distinct numbers below `trajNum` and all-zero
+    fraction vectors of length `n` (any weights, workers, engine table), `n ≥ 2`, no restart jobs —
+    if `load_paths` does not raise, the state with nothing in flight satisfies `RowInit`. -/
+theorem fresh_start_is_rowInit (n workers tsteps cstep trajNum seed : Nat) (occ : List (List Int))
+    (ensEng : List (List Nat)) (restarted : Bool) (paths : List (Nat × List Rat × List Rat)) (s : St)
+    (hn : 2 ≤ n) (hlen : paths.length = n - 1) (hnd : (paths.map (·.1)).Nodup)
+    (hlt : ∀ p ∈ paths, p.1 < trajNum) (hz : ∀ p ∈ paths, p.2.2 = List.replicate n 0)
+    (h : loadPaths (blank n workers tsteps cstep trajNum seed occ ensEng restarted []) paths = .ok s) :
+    RowInit ⟨s, []⟩ :=
+  rowInit_of_loadPaths n workers tsteps cstep trajNum seed occ ensEng restarted paths s hn hlen hnd hlt hz h
+
+theorem ex_rowInit : RowInit exSys :=
+  fresh_start_is_rowInit 4 2 10 0 3 0 [[-1, -1]] [[0], [0], [0]] false exPaths exS0 (by decide)
+    (by decide) (by decide) (by decide) (by decide +kernel) (by decide +kernel)
 
 theorem ex_rowInit1 : RowInit exSys1 := rowInit_of_liveOk ex_fracInit1 (by decide +kernel)
 
@@ -332,5 +346,125 @@ example : run exSys (exEvs.take 3) = .ok (match run exSys (exEvs.take 3) with | 
 
 example : RowInit exSys1 ∧ run exSys1 exEvs1 = .ok exEnd1 ∧ writtenAlong exSys1 exEvs1 = [1, 3] :=
   ⟨ex_rowInit1, by decide +kernel, by decide +kernel⟩
+
+/-! ## 6. Restarts
+
+`persist s` is what `write_toml` stores (`[current]`: active paths, `frac`, counters);
+`restore im n …` is `REPEX_state.__init__` + `load_paths` on the image (`weightOf pn` = the weight
+vector recomputed from the stored path).  The data-file list of the model starts empty in the new
+run (the file on disk is appended to), so across a restart the law reads
+`rows(before) + rows(after) + table(after) = idle recordings(before) + idle recordings(after)`. -/
+
+/-- **The restart image keeps the fractions.**  After `restore (persist s)`: every live path of `s`
+    has exactly the vector it had in `s` (a zero vector if it had none); the restored table holds
+    exactly the live paths; the path counter is kept; and if the table of `s` held exactly its live
+    paths (distinct keys), every column total of the table is the same. -/
+theorem restart_preserves_frac {s s' : St} {n workers tsteps : Nat} {occ : List (List Int)}
+    {ensEng : List (List Nat)} {weightOf : Nat → List Rat}
+    (h : restore (persist s) n workers tsteps occ ensEng weightOf = .ok s') :
+    (∀ pn, some pn ∈ livePaths s →
+        s'.frac.lookup pn = some ((s.frac.lookup pn).getD (List.replicate n 0))) ∧
+    (∀ pn v, some pn ∈ livePaths s → s.frac.lookup pn = some v → s'.frac.lookup pn = some v) ∧
+    (s'.frac.map Prod.fst).Perm ((livePaths s).filterMap id) ∧ s'.rows = [] ∧
+    s'.trajNum = s.trajNum ∧
+    ((s.frac.map Prod.fst).Nodup → (s.frac.map Prod.fst).Perm ((livePaths s).filterMap id) →
+        ∀ c, colTotal s'.frac c = colTotal s.frac c) := by
+  obtain ⟨hk, _, hr, _, ht⟩ := restore_frac h
+  refine ⟨restore_lookup h, ?_, hk, hr, ht, fun h1 h2 c => restore_colTotal h h1 h2 c⟩
+  intro pn v hl hv
+  rw [restore_lookup h pn hl, hv]
+  rfl
+
+/-- **Conservation across one restart** (chains follow by repeating the argument, since the
+    restored state is a start state again — `restore_init`).  A fresh start runs `evs1` to a
+    quiescent state `y1` (nothing in flight, nothing recorded as locked, the table holding exactly
+    the live paths), its image is restored with any worker count / step target, and the new run
+    performs `evs2`.  Then for every column: rows of the first run + rows of the second run + the
+    live fractions = idle recordings of the first run + idle recordings of the second run. -/
+theorem restart_conservation (y0 y1 y3 : Sys) (evs1 evs2 : List Ev) (h0 : RowInit y0)
+    (hr1 : run y0 evs1 = .ok y1) (hm1 : MatchableAlong y0 evs1)
+    (hlk : y1.s.locked = [])
+    (htab : (y1.s.frac.map Prod.fst).Perm ((livePaths y1.s).filterMap id))
+    (workers tsteps : Nat) (occ : List (List Int)) (ensEng : List (List Nat))
+    (weightOf : Nat → List Rat) (s2 : St)
+    (hrs : restore (persist y1.s) y1.s.n workers tsteps occ ensEng weightOf = .ok s2)
+    (hr2 : run ⟨s2, []⟩ evs2 = .ok y3) (hm2 : MatchableAlong ⟨s2, []⟩ evs2) (c : Nat) :
+    rowsTotal y1.s.rows c + (rowsTotal y3.s.rows c + colTotal y3.s.frac c)
+      = (idleSteps y0 evs1 c : Rat) + (idleSteps ⟨s2, []⟩ evs2 c : Rat) := by
+  obtain ⟨hi1, r1, _⟩ := run_rinv evs1 h0.fi.hinv h0.rinv hr1
+  have hc1 := conservation y0 y1 evs1 h0.fi hr1 hm1 c
+  obtain ⟨hinit2, fw2⟩ := restore_init hi1 r1 hlk hrs
+  obtain ⟨hc3, _, _⟩ := conservation_from ⟨s2, []⟩ y3 evs2 ⟨hinit2.inv, fw2⟩ (jinv_of_init hinit2) hr2 hm2 c
+  obtain ⟨_, _, hrows2, _, _⟩ := restore_frac hrs
+  rw [hc3]
+  show _ + (rowsTotal s2.rows c + colTotal s2.frac c + _) = _
+  rw [hrows2, restore_colTotal hrs hi1.fw.keys htab c, ← hc1]
+  simp only [rowsTotal_nil]
+  ring
+
+/-- **A restored quiescent state is a start state again**: it satisfies C03's `Init` (hence all
+    scheduler invariants) and the table invariant, so `conservation_from` and `restart_conservation`
+    apply again from it — this is the induction step for chains of restarts. -/
+theorem restart_is_start_state (y0 y1 : Sys) (evs1 : List Ev) (h0 : RowInit y0)
+    (hr1 : run y0 evs1 = .ok y1) (hlk : y1.s.locked = [])
+    (workers tsteps : Nat) (occ : List (List Int)) (ensEng : List (List Nat))
+    (weightOf : Nat → List Rat) (s2 : St)
+    (hrs : restore (persist y1.s) y1.s.n workers tsteps occ ensEng weightOf = .ok s2) :
+    Init ⟨s2, []⟩ ∧ HInv ⟨s2, []⟩ ∧ JInv ⟨s2, []⟩ := by
+  obtain ⟨hi1, r1, _⟩ := run_rinv evs1 h0.fi.hinv h0.rinv hr1
+  obtain ⟨hinit2, fw2⟩ := restore_init hi1 r1 hlk hrs
+  exact ⟨hinit2, ⟨hinit2.inv, fw2⟩, jinv_of_init hinit2⟩
+
+/-! ### a one-worker run to its last step, restart with a larger step target, two more steps -/
+
+def exBlankQ : St := blank 4 1 3 0 3 0 [[-1]] [[0], [0], [0]] false []
+
+def exSQ : St := match loadPaths exBlankQ exPaths with | .ok s => s | .error _ => exBlankQ
+
+def exSysQ : Sys := { s := exSQ, jobs := [] }
+
+def exEndQ : Sys := match run exSysQ exEvs1 with | .ok y => y | .error _ => exSysQ
+
+/-- weights recomputed from the stored paths -/
+def exW (pn : Nat) : List Rat := (exEndQ.s.wts.lookup pn).getD []
+
+def exS2 : St :=
+  match restore (persist exEndQ.s) 4 1 6 [[-1]] [[0], [0], [0]] exW with
+  | .ok s => s
+  | .error _ => exBlankQ
+
+def exEvs2 : List Ev :=
+  [ .start { t := 1, e := 1 }, .initDone,
+    .step 0 .acc [[2, 1, 0]] { t := 0, e := 0, coin := false },
+    .step 0 .rej [] { t := 2, e := 2 } ]
+
+def exEnd3 : Sys := match run ⟨exS2, []⟩ exEvs2 with | .ok y => y | .error _ => exSysQ
+
+theorem ex_rowInitQ : RowInit exSysQ :=
+  rowInit_of_liveOk
+    ⟨init_of_loadPaths 4 1 3 0 3 0 [[-1]] [[0], [0], [0]] false exPaths exSQ (by decide) (by decide)
+        (by decide) (by decide) (by decide +kernel),
+     fracWF_of_fracOk (by decide +kernel), by decide +kernel, by decide +kernel⟩
+    (by decide +kernel)
+
+example : restore (persist exEndQ.s) 4 1 6 [[-1]] [[0], [0], [0]] exW = .ok exS2 ∧
+    exEndQ.s.frac = [(2, [0, 11/6, 7/6, 0]), (0, [3, 0, 0, 0]), (4, [0, 1/2, 1/2, 0])] ∧
+    exS2.frac = [(4, [0, 1/2, 1/2, 0]), (2, [0, 11/6, 7/6, 0]), (0, [3, 0, 0, 0])] ∧
+    livePaths exEndQ.s = [some 0, some 4, some 2] := by
+  decide +kernel
+
+example : RowInit exSysQ ∧ run exSysQ exEvs1 = .ok exEndQ ∧ MatchableAlong exSysQ exEvs1 ∧
+    exEndQ.s.locked = [] ∧
+    (exEndQ.s.frac.map Prod.fst).Perm ((livePaths exEndQ.s).filterMap id) ∧
+    restore (persist exEndQ.s) exEndQ.s.n 1 6 [[-1]] [[0], [0], [0]] exW = .ok exS2 ∧
+    run ⟨exS2, []⟩ exEvs2 = .ok exEnd3 ∧ MatchableAlong ⟨exS2, []⟩ exEvs2 ∧
+    (List.range 4).map (idleSteps exSysQ exEvs1) = [3, 3, 3, 0] ∧
+    (List.range 4).map (idleSteps ⟨exS2, []⟩ exEvs2) = [2, 2, 2, 0] ∧
+    exEnd3.s.rows = [(4, [0, 1/2, 1/2, 0], [1, 1, 1])] ∧
+    exEnd3.s.frac = [(2, [0, 5/2, 5/2, 0]), (0, [5, 0, 0, 0]), (5, [0, 4/3, 2/3, 0])] :=
+  ⟨ex_rowInitQ, by decide +kernel, matchableAlong_of_B _ _ (by decide +kernel), by decide +kernel,
+   by decide +kernel, by decide +kernel, by decide +kernel,
+   matchableAlong_of_B _ _ (by decide +kernel), by decide +kernel, by decide +kernel,
+   by decide +kernel, by decide +kernel⟩
 
 end Infretis.C04
